@@ -55,10 +55,19 @@ def check(ctx):
         if margs is None or not frees:
             # recognised shapes without a capacity bound: a parameter / constant / arithmetic on them.  A term the expansion could
             # not resolve (a local with several definitions, the result of a helper call) is not a recognised shape
-            opaque = [x for x in ast.walk(amt) if (isinstance(x, ast.Name) and isinstance(x.ctx, ast.Load) and x.id not in f.params
-                                                    and x.id not in ('min', 'max', 'abs', 'round', 'float', 'int') and len(fl.defs_of(x.id)) > 1)
-                      or (isinstance(x, ast.Call) and not (isinstance(x.func, ast.Name) and x.func.id in ('min', 'max', 'abs', 'round', 'float', 'int'))
-                          and not parse_cap(x) and not sched._resv_call(x))]
+            def _opq(x):
+                if isinstance(x, ast.Name):
+                    return isinstance(x.ctx, ast.Load) and x.id not in f.params and x.id not in stop and len(fl.defs_of(x.id)) > 1
+                if isinstance(x, ast.Call):
+                    return not (isinstance(x.func, ast.Name) and x.func.id in ('min', 'max', 'abs', 'round', 'float', 'int', 'timedelta', 'datetime')) \
+                        and not parse_cap(x) and not sched._resv_call(x)
+                return False
+            caps_ = [x for x in ast.walk(amt) if parse_cap(x)]
+            if caps_:
+                # the capacity is read: undecided only when what is subtracted from it is a term the expansion could not resolve
+                opaque = [x.right for x in ast.walk(amt) if isinstance(x, ast.BinOp) and isinstance(x.op, ast.Sub) and parse_cap(x.left) and _opq(x.right)]
+            else:
+                opaque = [x for x in ast.walk(amt) if _opq(x)]
             if opaque:
                 o.undecided(f, c, amount, f"reserved amount `{src(amt)[:80]}` contains `{src(opaque[0])[:40]}`, which the rule cannot resolve")
                 continue
@@ -190,24 +199,65 @@ def check(ctx):
             f = prog.func(S['pass_'])
             cfg = cfg_of(f)
             found = []
+            exf0 = Expander(prog, f, ctx.typer)
             for c in facts.calls_named(f, 'setdefault'):
                 m = match(f"self.{S['resources']}.setdefault($k, Resource($k2))", c)
                 if m:
                     found.append((c, m))
+                    continue
+                m = match(f"self.{S['resources']}.setdefault($k, $v)", c)
+                if m:
+                    v = exf0.expand(m['v'], cfg.node_containing(c))
+                    if isinstance(v, ast.Call) and isinstance(v.func, ast.Name) and v.func.id == 'Resource':
+                        extra = list(v.args[1:]) + [k.value for k in v.keywords if k.arg != 'name']
+                        name_arg = v.args[0] if v.args else next((k.value for k in v.keywords if k.arg == 'name'), None)
+                        if extra and not all(isinstance(x, ast.Name) and x.id == 'DEFAULT_CALENDAR' for x in extra):
+                            found.append((c, None))
+                            o.refute(f, c, c, f"the default resource is created as `{src(v)[:70]}`: with an explicit calendar instead of the default "
+                                              f"Monday-Friday 8-unit calendar")
+                        elif name_arg is not None:
+                            found.append((c, {'k': m['k'], 'k2': name_arg}))
+            membership_form = set()
+            for n in walk_no_nested(f.node):
+                # `if k not in self.R: self.R[k] = Resource(k)`  ==  self.R.setdefault(k, Resource(k))
+                if isinstance(n, ast.Assign) and len(n.targets) == 1:
+                    mt = match(f"self.{S['resources']}[$k]", n.targets[0])
+                    mv = match("Resource($k2)", exf0.expand(n.value, cfg.node_of(n)))
+                    if mt and mv:
+                        found.append((n, {'k': mt['k'], 'k2': mv['k2']}))
+                        membership_form.add(id(n))
             if not found:
-                o.refute(f, f.node, 'setdefault', f"no `self.{unmangle(S['resources'])}.setdefault(task.resource, Resource(task.resource))` in the pass: "
-                                                  f"resources named by tasks are not registered")
+                # spelled otherwise (subscript store under `not in`, dict.get + store, registration moved to calc / a helper)?
+                registering = [n for fq in prog.all_funcs() if fq.cls == S['cls'] and fq.name != '__init__' for n in walk_no_nested(fq.node)
+                               if (isinstance(n, ast.Subscript) and isinstance(n.ctx, ast.Store) and isinstance(n.value, ast.Attribute) and n.value.attr == S['resources'])
+                               or (isinstance(n, ast.Call) and isinstance(n.func, ast.Attribute) and n.func.attr in ('setdefault', 'update', '__setitem__')
+                                   and isinstance(n.func.value, ast.Attribute) and n.func.value.attr == S['resources'])]
+                if registering:
+                    o.undecided(f, f.node, 'setdefault', f"resources are registered in a form the rule does not follow (`{src(registering[0])[:60]}`)")
+                else:
+                    o.refute(f, f.node, 'setdefault', f"no `self.{unmangle(S['resources'])}.setdefault(task.resource, Resource(task.resource))` in the pass "
+                                                      f"(and no other store into the resource table): resources named by tasks are not registered")
                 continue
             task_p = f.params[1]
             exf = Expander(prog, f, ctx.typer)
             for c, m in found:
+                if m is None:
+                    continue
                 cn_ = cfg.node_containing(c)
                 k1, k2 = exf.expand(m['k'], cn_), exf.expand(m['k2'], cn_)
                 if not (match(f"{task_p}.resource", k1) and same(k1, k2)):
                     o.refute(f, c, c, "resource table is not keyed by the task's resource name / default resource gets another name")
                     continue
-                conds = facts.node_conditions(prog, f, c, ctx.typer, expand=False)
-                others = [(t, p) for t, p in conds if not (match(f"{task_p}.id in $c", t) and not p)]
+                conds = facts.node_conditions(prog, f, c, ctx.typer, expand=True)
+                others = [(t, p) for t, p in conds if not facts.cond_is(t, p, f"{task_p}.id in $c", want=False)]
+                if id(c) in membership_form:
+                    guard = [(t, p) for t, p in others if (lambda mm: mm is not None and same(exf.expand(mm['k'], cn_), k1))(
+                        facts.cond_is(t, p, f"$k in self.{S['resources']}", want=False))]
+                    if not guard:
+                        o.refute(f, c, c, "the resource table entry of the task's resource is overwritten with a fresh default resource "
+                                          "(store not guarded by `name not in table`): a resource supplied by the caller is replaced")
+                        continue
+                    others = [x for x in others if x not in guard]
                 if others:
                     o.refute(f, c, c, "default resource registration is conditional (" + ', '.join(facts.cond_texts(others)) +
                              "): a resource named only by a summary or milestone task would be missing from the result")
@@ -235,11 +285,29 @@ def check(ctx):
                 m = match("{} if $p is None else {$r.name: $r for $r in $p}", val) or \
                     match("{$r.name: $r for $r in $p} if $p is not None else {}", val) or \
                     match("{$r.name: $r for $r in $p} if $p else {}", val)
+                exi = Expander(prog, init, ctx.typer)
+                vx = exi.expand(val, cfg_of(init).node_of(st))
+                m = m or match("{} if $p is None else {$r.name: $r for $r in $p}", vx) or \
+                    match("{$r.name: $r for $r in $p} if $p is not None else {}", vx) or \
+                    match("{$r.name: $r for $r in $p} if $p else {}", vx) or match("{$r.name: $r for $r in $p or []}", vx) or \
+                    match("{$r.name: $r for $r in $p or ()}", vx)
+                dcs = [n for n in ast.walk(vx) if isinstance(n, ast.DictComp)]
+                if not m and (match("{}", vx) or match("dict()", vx)):
+                    # empty table filled by a loop: `for r in resources [or []]: self.R[r.name] = r`
+                    for lp in [n for n in walk_no_nested(init.node) if isinstance(n, ast.For) and isinstance(n.target, ast.Name)]:
+                        src_ok = any(isinstance(x, ast.Name) and x.id in init.params for x in ast.walk(lp.iter))
+                        sts_ = [x for x in lp.body if isinstance(x, ast.Assign) and len(x.targets) == 1 and
+                                match(f"self.{S['resources']}[{lp.target.id}.name]", x.targets[0]) and match(lp.target.id, x.value)]
+                        if src_ok and len(sts_) == 1 and len(lp.body) == 1:
+                            m = {'loop': lp}
                 if m:
                     ok = True
                     o.site(init, st, src(val))
+                elif dcs and not any(match("$r.name", n.key) and isinstance(n.value, ast.Name) and match("$r.name", n.key)['r'].id == n.value.id for n in dcs):
+                    o.refute(init, st, val, f"resource table is `{src(vx)[:70]}`: not keyed {{r.name: r}} (tasks find their resource by name)")
+                    ok = True
                 else:
-                    o.refute(init, st, val, "resource table is not {r.name: r for r in resources}")
+                    o.undecided(init, st, val, f"resource table is initialised as `{src(vx)[:70]}`, a form the rule does not follow")
                     ok = True
             if not ok:
                 o.undecided(init, init.node, '__init__', "resource table initialisation not found")
@@ -247,10 +315,26 @@ def check(ctx):
         a = rinit.node.args
         defaults = dict(zip([x.arg for x in a.args][-len(a.defaults):], a.defaults)) if a.defaults else {}
         d = defaults.get('calendar')
-        if not (isinstance(d, ast.Name) and d.id == 'DEFAULT_CALENDAR'):
-            o.refute(rinit, rinit.node, 'calendar default', "Resource() does not default to DEFAULT_CALENDAR")
-        else:
+        if isinstance(d, ast.Name) and d.id == 'DEFAULT_CALENDAR':
             o.site(rinit, rinit.node, 'calendar=DEFAULT_CALENDAR')
+        elif isinstance(d, ast.Constant) and d.value is None:
+            # None default resolved in the body: `if calendar is None: calendar = DEFAULT_CALENDAR` / conditional expression
+            exr = Expander(prog, rinit, ctx.typer)
+            stores = [(st_, exr.expand(v_, cfg_of(rinit).node_of(st_))) for st_, t_, v_ in facts.attr_stores(rinit) if 'calendar' in t_.attr]
+            good_ = [st_ for st_, v_ in stores if match("DEFAULT_CALENDAR if calendar is None else calendar", v_) or
+                     match("calendar if calendar is not None else DEFAULT_CALENDAR", v_)]
+            if good_:
+                o.site(rinit, good_[0], 'calendar=None -> DEFAULT_CALENDAR')
+            elif any('DEFAULT_CALENDAR' in src(v_) for st_, v_ in stores):
+                o.undecided(rinit, rinit.node, 'calendar default', "Resource() resolves a missing calendar in a form the rule does not follow")
+            else:
+                o.refute(rinit, rinit.node, 'calendar default', "Resource() does not default to DEFAULT_CALENDAR")
+        elif d is None:
+            o.refute(rinit, rinit.node, 'calendar default', "Resource() has no default calendar: the default resource created by the schedulers cannot be built")
+        elif isinstance(d, ast.Call):
+            o.refute(rinit, rinit.node, 'calendar default', f"Resource() defaults to `{src(d)[:60]}`, not to DEFAULT_CALENDAR (Monday-Friday, 8 units)")
+        else:
+            o.undecided(rinit, rinit.node, 'calendar default', f"Resource() defaults its calendar to `{src(d)[:60]}`")
         cal = prog.module('calendar')
         dc = None
         for st in cal.tree.body:
@@ -302,8 +386,15 @@ def check(ctx):
                 elif match("self.calendar.get_available_units($d)", v) and any(match("$u is None", t) and not p for t, p in conds):
                     good += 1
                     o.site(f, r, 'return units under `is not None`')
-                else:
+                elif match("self.calendar.get_available_units($d)", v) or isinstance(v, ast.Constant) or \
+                        (match("$a if $c else $b", v) and any(match("self.calendar.get_available_units($d)", x) for x in ast.walk(v))) or \
+                        any(isinstance(x, ast.Subscript) or (isinstance(x, ast.Attribute) and isinstance(x.value, ast.Name) and x.value.id == f.params[0]
+                                                             and x.attr != 'calendar') for x in ast.walk(v)):
+                    # recognised wrong shapes: the raw calendar answer (None passed through), a constant, a conditional with another
+                    # fallback than 0-for-None, an answer read from the resource's own state
                     o.refute(f, r, r, f"get_available_units returns `{src(v)}`: not `0 if calendar value is None else calendar value`")
+                else:
+                    o.undecided(f, r, r, f"get_available_units returns `{src(v)[:80]}`, a form the rule does not follow")
         if not ws and good:
             o.site(f, f.node, 'no state written')
     ctx.guarded(o, cap)
@@ -320,7 +411,8 @@ def check(ctx):
             for r in [n for n in walk_no_nested(calc.node) if isinstance(n, ast.Return)]:
                 if isinstance(r.value, ast.Call) and len(r.value.args) >= 3:
                     a2 = ex.expand(r.value.args[2])
-                    m = match("ResourceUsageReport($x.rows)", a2)
+                    m = match("ResourceUsageReport($x.rows)", a2) or match("ResourceUsageReport(list($x.rows))", a2) or \
+                        match("ResourceUsageReport($x.rows[:])", a2) or match("ResourceUsageReport($x.rows.copy())", a2)
                     if m and match("_ResourceUsage()", m['x']):
                         # the same ledger object must be the one handed to the pass: follow hoisted locals to the
                         # ResourceUsageReport(<name>.rows) call and compare the definition of <name> at both places
@@ -333,7 +425,19 @@ def check(ctx):
                             if d is None or d.value is None:
                                 break
                             rep, at, hops = d.value, d.node, hops + 1
-                        led = rep.args[0].value if isinstance(rep, ast.Call) and rep.args and isinstance(rep.args[0], ast.Attribute) else None
+                        arg0 = rep.args[0] if isinstance(rep, ast.Call) and rep.args else None
+                        hops = 0
+                        while hops < 4 and arg0 is not None:
+                            hops += 1
+                            mm = match("list($x)", arg0) or match("$x[:]", arg0) or match("$x.copy()", arg0)
+                            if mm:
+                                arg0 = mm['x']
+                            elif isinstance(arg0, ast.Name) and fl.unique_def(arg0.id, at) is not None and fl.unique_def(arg0.id, at).value is not None:
+                                dd = fl.unique_def(arg0.id, at)
+                                arg0, at = dd.value, dd.node
+                            else:
+                                break
+                        led = arg0.value if isinstance(arg0, ast.Attribute) and arg0.attr == 'rows' else None
                         led_def = fl.unique_def(led.id, at) if isinstance(led, ast.Name) else None
                         passed = [c for f2, c in sched.pass_call_sites(ctx, S) if f2 is calc]
                         if led_def is not None and passed and all(any(isinstance(a, ast.Name) and fl.unique_def(a.id, cfgc.node_containing(c)) is led_def
@@ -341,8 +445,12 @@ def check(ctx):
                             o.site(calc, r, src(rep))
                         else:
                             o.refute(calc, r, r.value.args[2], "the report is not built from the ledger handed to the scheduling pass")
+                    elif match("ResourceUsageReport($x)", a2) and not any(isinstance(x, ast.Attribute) and x.attr == 'rows' for x in ast.walk(a2)):
+                        o.refute(calc, r, r.value.args[2], f"usage report is built from `{src(a2)[:60]}`, not from the rows of this call's ledger")
+                    elif m:
+                        o.refute(calc, r, r.value.args[2], f"usage report is built from the rows of `{src(m['x'])[:50]}`, not of a ledger created by this call")
                     else:
-                        o.refute(calc, r, r.value.args[2], "usage report is not ResourceUsageReport(<ledger of this call>.rows)")
+                        o.undecided(calc, r, r.value.args[2], f"usage report is `{src(a2)[:70]}`: not ResourceUsageReport(<ledger>.rows) in a form the rule follows")
         report_rows(ctx, o)
         sf = prog.func('schedule.ResourceUsageReport.reserved')
         ex = Expander(prog, sf, ctx.typer)
@@ -382,8 +490,15 @@ def check(ctx):
                     got.add(('' if pol else 'not ') + t)
             if match(f"{tgt.id}.units", elt) and match("self._ResourceUsageReport__rows", it) and got == want:
                 o.site(sf, r, src(v)[:100])
+            elif not match("self._ResourceUsageReport__rows", it):
+                o.refute(sf, r, r, f"report total ranges over `{src(it)[:50]}`, not over the report's rows")
+            elif not match(f"{tgt.id}.units", elt):
+                o.refute(sf, r, r, f"report total sums `{src(elt)[:50]}`, not the units of the rows")
+            elif want - got:
+                o.refute(sf, r, r, f"report total is `{src(v)[:120]}`: rows are not matched on " +
+                         ' and '.join(sorted(w.split(' == ')[0].split('.')[-1] for w in want - got)) + " (expected equal resource and date)")
             else:
-                o.refute(sf, r, r, f"report total is `{src(v)[:120]}`; expected the sum of units over rows with equal resource and date")
+                o.undecided(sf, r, r, f"report total filters rows additionally by {sorted(got - want)}: a condition the rule does not recognise")
     ctx.guarded(o, report)
 
     # ------------------------------------------------------------------------------------------------ searches
@@ -423,7 +538,12 @@ def check(ctx):
                         else:
                             o.site(f, r, src(t)[:100])
                 if not hit:
-                    o.refute(f, r, r, "search returns a date that was not tested for free capacity")
+                    opaque = [(t, pol) for t, pol in conds if sched.sign_test(t, pol) is None and
+                              not isinstance(t, (ast.For, ast.While)) and not match("$i in range($*a)", t)]
+                    if opaque:
+                        o.undecided(f, r, r, "search returns under " + ', '.join(facts.cond_texts(opaque))[:100] + ": not a free-capacity test the rule recognises")
+                    else:
+                        o.refute(f, r, r, "search returns a date that was not tested for free capacity")
     ctx.guarded(o, search)
 
 
@@ -554,7 +674,14 @@ def ledger_shape(ctx, o):
                 (match("$s.rows", c.func.value) or not isinstance(c.func.value, ast.Name) or c.func.value.id not in rf.params)]
     app_arg = ex.expand(appended[0].args[0]) if len(appended) == 1 and appended[0].args else None
     if len(rows) != 1 or len(appended) != 1 or not (isinstance(app_arg, ast.Call) and getattr(app_arg.func, 'id', '') == 'ResourceUsageRow'):
-        o.refute(rf, rf.node, 'reserve', "reserve() must append exactly one ResourceUsageRow to the ledger")
+        touches_rows = [n for n in walk_no_nested(rf.node) if isinstance(n, ast.Attribute) and n.attr == 'rows']
+        if len(rows) > 1 or len(appended) > 1:
+            o.refute(rf, rf.node, 'reserve', f"reserve() builds {len(rows)} row(s) and appends {len(appended)} time(s): exactly one ResourceUsageRow "
+                                             f"per booking must be stored")
+        elif not rows and not touches_rows:
+            o.refute(rf, rf.node, 'reserve', "reserve() never stores a ResourceUsageRow in the ledger: bookings are not recorded")
+        else:
+            o.undecided(rf, rf.node, 'reserve', "reserve() stores its row in a form the rule does not follow (expected self.rows.append(ResourceUsageRow(..)))")
         return
     row = ex.expand(rows[0])
     p = rf.params
@@ -569,7 +696,21 @@ def ledger_shape(ctx, o):
     else:
         o.site(rf, rows[0], src(row))
     rets = [n for n in walk_no_nested(rf.node) if isinstance(n, ast.Return)]
-    if len(rets) != 1 or not (isinstance(rets[0].value, ast.Name) and rets[0].value.id == p[4]):
+    for rt in rets:
+        rv = ex.expand(rt.value) if rt.value is not None else None
+        if isinstance(rv, ast.Name) and rv.id == p[4]:
+            continue
+        if rv is not None and same(rv, row.args[3]):
+            continue
+        if isinstance(rt.value, ast.Attribute) and rt.value.attr == 'units':
+            continue        # <the stored row>.units
+        if rv is None or isinstance(rv, ast.Constant) or any(isinstance(x, ast.Name) and x.id == p[4] for x in ast.walk(rv)):
+            # nothing / a constant / a transformed amount (rounded, scaled): not what was stored
+            o.refute(rf, rt, 'return', f"reserve() returns `{src(rv) if rv is not None else 'None'}`, not exactly the units it stored (the fill loops "
+                                       f"subtract the return value)")
+        else:
+            o.undecided(rf, rt, 'return', f"reserve() returns `{src(rv)[:60]}`, which the rule cannot relate to the stored units")
+    if not rets:
         o.refute(rf, rf.node, 'return', "reserve() must return exactly the units it stored (the fill loops subtract the return value)")
     # query: every "collect row.units for row in self.rows if ..." site (comprehension or accumulation loop)
     exq = Expander(prog, qf, ctx.typer)
